@@ -1,0 +1,87 @@
+//go:build verif
+
+// Contracts for govc (/verif): C33, first sentence — "Amounts parse from decimal text by truncating to eight places and print back to
+// the same normalized text." Comment-only file.
+//
+// Vocabulary (ASSUMED theory of /verif/govc/trusted/c33.spec): a decimal.Decimal is DNum * 10^DExp; DecTextOK / DecTextNum / DecTextExp describe
+// decimal.NewFromString; ScaleFloor(n, k) = floor(n * 10^k); DecStr(n) is (*big.Int).String(); Pad8(r) the 8-digit zero-padded form of
+// r < 10^8; Hi(v) the digits of v div 10^8; strings.RepeatOf = strings.Repeat. val(x) is the integer an Integer holds (amount * 10^8).
+
+package common
+
+//@ -- floor(value(x) * 10^8) for the decimal text x
+//@ spec Floor8(x string) mathint = ScaleFloor(DecTextNum(x), DecTextExp(x) + 8)
+
+//@ -- what Integer.String computes from the digit string s = DecStr(v) (any v, also negative: used in error messages)
+//@ spec IntTextOf(s string) string = len(s) > 8 ? s[0:len(s) - 8] + "." + s[len(s) - 8:] : "0." + strings.RepeatOf("0", 8 - len(s)) + s
+//@ spec IntText(v mathint) string = IntTextOf(DecStr(v))
+
+//@ -- the NORMALIZED text of the amount v >= 0 (v units of 10^-8): the integer part v div 10^8 with at least one digit ("0" if it is 0),
+//@ -- a dot, and exactly 8 fractional digits (v mod 10^8, zero-padded)
+//@ spec NormText(v mathint) string = v < 100000000 ? "0." + Pad8(v) : Hi(v) + "." + Pad8(v % 100000000)
+
+//@ -- PARSE. Property: panics iff the text is not a decimal or is negative; otherwise the value is floor(value * 10^8).
+//@ -- (the second existing C05 clause is about the value of one string literal and stays assumed)
+//@ -- Out-of-range rejection: decimal.NewFromString accepts exponents up to MaxInt32, and a NON-ZERO coefficient with exponent + 8 beyond int32
+//@ -- panics inside decimal.Mul ("exponent N overflows an int32!"): third disjunct. Such a text denotes more than 10^(2^31) units, far outside
+//@ -- the property's range (amounts up to 2^520 units): lemma InRangeAmountsAreAccepted. A ZERO written with such an exponent ("0e2147483647")
+//@ -- is in range and is parsed as 0 since fix F9 (before it, it hit the same library panic: finding F9, findings/F9).
+//@ func NewIntegerFromString(x)
+//@   property C33
+//@   panics when !DecTextOK(x) || DecTextNum(x) < 0 || (DecTextNum(x) != 0 && !InInt32(DecTextExp(x) + 8))
+//@   modifies nothing
+//@   ensures [truncated-to-8-places] val(v) == Floor8(x)
+//@   ensures [non-negative] val(v) >= 0
+//@   assumes x == ExtraStoragePriceStep ==> val(v) == 10000
+//@   assumes x == "89.87671232" ==> val(v) == 8987671232   -- C25: the amount of the last legacy mint batch (kernel/mint.go lastMintDistribution)
+
+//@ -- x * 10^8 (math.Pow(10, 8) is exact)
+//@ func NewInteger(x)
+//@   property C33
+//@   modifies nothing
+//@   ensures val(v) == x * 100000000
+
+//@ -- PRINT: Integer.String — contract in zz_contracts_c05_verif.go (pure; [format] result == IntText(val(x)))
+
+//@ func (x Integer) MarshalJSON
+//@   property C33
+//@   modifies nothing
+//@   ensures [json] err == nil && bytestr(result0) == crypto.QuoteOf(IntText(val(x)))
+
+//@ -- accepts exactly the quoted strings; PANICS (does not return an error) when the content is not a non-negative decimal
+//@ func (x *Integer) UnmarshalJSON(b)
+//@   property C33
+//@   requires x != nil
+//@   panics when crypto.UnquoteOK(old(bytestr(b))) && (!DecTextOK(crypto.UnquoteOf(old(bytestr(b)))) || DecTextNum(crypto.UnquoteOf(old(bytestr(b)))) < 0 ||
+//@     (DecTextNum(crypto.UnquoteOf(old(bytestr(b)))) != 0 && !InInt32(DecTextExp(crypto.UnquoteOf(old(bytestr(b)))) + 8)))
+//@   modifies x.i
+//@   ensures [accept-iff] err == nil <==> crypto.UnquoteOK(old(bytestr(b)))
+//@   ensures [value] err == nil ==> val(*x) == Floor8(crypto.UnquoteOf(old(bytestr(b))))
+//@   ensures [unchanged-on-error] err != nil ==> val(*x) == old(val(*x))
+
+//@ -- the printed text of a non-negative amount IS the normalized text (relative to the assumed digit-string laws: split of DecStr at
+//@ -- 10^8, zero padding, length of DecStr)
+//@ lemma PrintsNormalizedText(v mathint)
+//@   property C33
+//@   requires v >= 0
+//@   ensures [normalized] IntText(v) == NormText(v)
+//@   ensures [shape] len(Pad8(v % 100000000)) == 8 && (v >= 100000000 ==> len(Hi(v)) >= 1 && ParseDec(Hi(v)) == v / 100000000)
+
+//@ -- print, then parse: the normalized text of v is a decimal, not negative, denotes exactly v * 10^-8, and NewIntegerFromString
+//@ -- ([truncated-to-8-places]) maps it back to v. Relative to the assumed law for decimal.NewFromString on normalized text.
+//@ lemma IntegerPrintParse(v mathint)
+//@   property C33
+//@   requires v >= 0
+//@   ensures [accepted] DecTextOK(IntText(v)) && DecTextNum(IntText(v)) >= 0
+//@   ensures [exact] DecTextNum(IntText(v)) == v && DecTextExp(IntText(v)) == 0 - 8
+//@   ensures [same] Floor8(IntText(v)) == v
+
+//@ -- "accept everything else without failing", on the property's range (amounts from 0 to 2^520 units): a non-negative decimal text with
+//@ -- coefficient n and exponent e (an int32: decimal.NewFromString rejects anything else, e.g. a fractional part of more than 2^31 digits)
+//@ -- whose amount floor(n * 10^(e+8)) is at most 2^520 units never meets the third disjunct of NewIntegerFromString's panic condition:
+//@ -- either n == 0, or 10^(e+8) <= n * 10^(e+8) <= 2^520 < 10^157, so e + 8 < 157. (Uses the assumed fact Pow10(k) > 2^520 for k >= 157.)
+//@ lemma InRangeAmountsAreAccepted(n mathint, e mathint)
+//@   property C33
+//@   requires n >= 0 && InInt32(e)
+//@   requires [in-range] ScaleFloor(n, e + 8) <= 3432398830065304857490950399540696608634717650071652704697231729592771591698828026061279820330727277488648155695740429018560993999858321906287014145557528576
+//@   ensures [no-exponent-overflow] !(n != 0 && !InInt32(e + 8))
